@@ -436,9 +436,49 @@ func runC17(env *Env, s Scenario) {
 			by[n].Cmds[l.Deescalate] = &peer.Reply{Next: l.PreviousPriv}
 		}
 	}
+	// a level whose canonical prompt also satisfies another level's pattern cannot be told from
+	// it by the driver (its choice among the candidates then follows map order): such levels
+	// are only used as targets, never as the start or as an intermediate stop of a path
+	ambiguous := map[string]bool{}
+	for _, a := range names {
+		for _, b := range names {
+			if a != b && matches(b, prompts[a]) {
+				ambiguous[a] = true
+			}
+		}
+	}
+	parentOf := map[string]string{}
+	for _, n := range names {
+		parentOf[n] = levels[n].PreviousPriv
+	}
+	clearPath := func(a, b string) bool {
+		if !reach(a, b) {
+			return false
+		}
+		p := (&privTree{Parent: parentOf}).path(a, b)
+		for i, x := range p {
+			if i < len(p)-1 && ambiguous[x] {
+				return false
+			}
+		}
+
+		return true
+	}
 	start := names[sc.StartIdx%len(names)]
-	if !reach(start, nd.DefaultDesiredPriv) {
+	if !clearPath(start, nd.DefaultDesiredPriv) {
 		start = nd.DefaultDesiredPriv
+		if ambiguous[start] {
+			for _, n := range names {
+				if clearPath(n, nd.DefaultDesiredPriv) {
+					start = n
+
+					break
+				}
+			}
+		}
+	}
+	if ambiguous[start] && start != nd.DefaultDesiredPriv {
+		env.Probe("no-unambiguous-start:" + sc.Platform)
 	}
 	dev.Modes = map[string]*peer.Mode{}
 	for _, m := range modes {
@@ -463,7 +503,7 @@ func runC17(env *Env, s Scenario) {
 		cur := nd.DefaultDesiredPriv
 		for _, wi := range sc.Walk {
 			t := names[wi%len(names)]
-			if !reach(cur, t) {
+			if !clearPath(cur, t) {
 				continue
 			}
 			st := step{target: t}
@@ -476,7 +516,7 @@ func runC17(env *Env, s Scenario) {
 			cur = t
 		}
 		_, closeLogStart = dev.State()
-		closeReachable = reach(cur, nd.DefaultDesiredPriv)
+		closeReachable = clearPath(cur, nd.DefaultDesiredPriv)
 		env.Call("Close", func() { closeErr = nd.Close() })
 	})
 	out := env.K.Run(done, 3600*time.Second, 20*rd+time.Millisecond)
